@@ -1,5 +1,5 @@
 """C39 — Multipart file serialization round-trips (spec/Multipart)."""
-import json, re, threading
+import json, re, threading, time
 
 META = dict(
     spec="Multipart",
@@ -7,7 +7,9 @@ META = dict(
                 "parameters) and a transcription of the NewFileFromPartReader iterators (fileName / isChild / implicit "
                 "directories / skipping nested parts / fileInfo), that Parse(Serialize(t)) = t for every ordered tree of "
                 "<= 3 (quick) / 4 (thorough) nodes, depth <= 2, over 6 hostile and prefix-related names, and for every "
-                "mode x mtime class on trees <= 3 nodes; a control configuration with the as-built fileInfo must fail. "
+                "mode x mtime class on trees <= 3 nodes, every setuid/setgid/sticky combination with and without permission "
+                "bits, and every Read behaviour the io.Reader contract allows a file node (short and one-byte reads, data "
+                "together with io.EOF, (0, nil) reads) with the part body defined as all bytes handed out; a control configuration with the as-built fileInfo must fail. "
                 "Every generated tree is then built from real Nodes, serialised by NewMultiFileReader (raw parts compared "
                 "with the model's part list) and parsed by NewFileFromPartReader (full and shallow walk compared with the "
                 "model's result), in form-data and attachment mode."),
@@ -23,9 +25,13 @@ def run(ctx):
                         "attachment (non-form) disposition carries no mode/mtime by design: the model erases them"]
     ctx.cov["rule"] = ("G: every ordered tree within the bounds of the generator configs (structure: <=3/4 nodes, depth <=3, names "
                        "'a','a b','a%2F', all node types, empty and non-empty bodies; metadata: <=2/3 nodes, names 'a','ab', modes "
-                       "{unset,0644,07777} x mtimes {unset, secs, secs+nanos, negative}) plus sampled 4-node trees over 11 names; "
+                       "{unset,0644,07777} x mtimes {unset, secs, secs+nanos, negative}; mode classes: single nodes x 32 modes = "
+                       "{setuid,setgid,sticky subsets} x {no permission bit,0001,0644,0777}; Read behaviours: <=2/3 nodes, file "
+                       "contents of 0/1/3 bytes x 6 Read scripts of the sender's file node: all at once / byte by byte, io.EOF "
+                       "alone / with the last bytes, (0,nil) reads, short read) plus sampled 4-node trees over 11 names; "
+                       "MultiFileReader drained by io.ReadAll and through a 1-byte buffer; "
                        "each in form and attachment mode, full and shallow walk. non-trivial = a directory with a child, or a "
-                       "node carrying a mode or an mtime")
+                       "node carrying a mode or an mtime, or a non-empty file with a non-default Read behaviour")
     S = "Multipart"
     # build the harness while TLC works (go_build only logs; results are collected before the replay)
     built = {}
@@ -38,9 +44,9 @@ def run(ctx):
     builder = threading.Thread(target=build)
     builder.start()
 
-    def mc_gen(cfg, timeout=3000):
+    def mc_gen(cfg, timeout=3000, workers=None):
         """one TLC run = phase M on the configuration + the generator (Emit prints every tree)"""
-        res = ctx.tlc_mc(S, "GenMultipart.tla", cfg, timeout=timeout, deadlock=False)
+        res = ctx.tlc_mc(S, "GenMultipart.tla", cfg, timeout=timeout, deadlock=False, workers=workers)
         out, seen = [], set()
         for line in res["out"].splitlines():
             m = re.match(r'^<<"BEHAVIOUR", "(.*)">>$', line.strip())
@@ -52,7 +58,28 @@ def run(ctx):
             ctx.broken("generator %s: %d behaviours for %d trees" % (cfg, len(out), res["distinct"] - 1))
         return out
 
-    sets = [("struct", mc_gen("MCGenMultipart.cfg")), ("meta", mc_gen("MCGenMultipartMeta.cfg"))]
+    # the M+G runs are independent: run them side by side (JVM start-up dominates the small ones)
+    ctx.specdir(S)
+    jobs = [("struct", "MCGenMultipart.cfg", None), ("meta", "MCGenMultipartMeta.cfg", None),
+            ("modes", "MCGenMultipartModes.cfg", 2),
+            ("read", "MCGenMultipartRead.cfg" if ctx.quick else "MCGenMultipartReadBig.cfg", 4)]
+    done = {}
+
+    def job(name, cfg, workers):
+        try:
+            done[name] = mc_gen(cfg, workers=workers)
+        except Exception as e:
+            done[name] = e
+    threads = [threading.Thread(target=job, args=j) for j in jobs]
+    for t in threads:
+        t.start()
+        time.sleep(0.2)        # scratch directory names are derived from the clock
+    for t in threads:
+        t.join()
+    for name, _, _ in jobs:
+        if isinstance(done.get(name), Exception):
+            raise done[name]
+    sets = [(name, done[name]) for name, _, _ in jobs]
     ctl = ctx.tlc_mc(S, "MCMultipart.tla", "MCMultipartAsBuilt.cfg", timeout=900, deadlock=False, expect_violation=True)
     if ctl["violated"] != "RoundTrip":
         ctx.broken("non-vacuity control: the as-built fileInfo should violate RoundTrip in the model, got %s" % ctl["violated"])
@@ -71,7 +98,8 @@ def run(ctx):
 
     def nontrivial(b):
         t = b["tree"]
-        return any(x["d"] > 1 for x in t) or any((x["mode"] and x["type"] != "link") or x["mt"]["set"] for x in t)
+        return any(x["d"] > 1 for x in t) or any((x["mode"] and x["type"] != "link") or x["mt"]["set"] for x in t) \
+            or any(x["type"] == "file" and x["rd"] != "all" and x["body"] for x in t)
     for name, behs in sets:
         if not behs:
             ctx.broken("no behaviours in set " + name)
